@@ -121,10 +121,24 @@ func checkC18(p *core.Program, r *core.Report) {
 		}
 		return false, "the notified detail is neither the stored object nor the one just stored"
 	}
+	userOps := map[string]bool{}
+	if hi := p.Named("api", "HubInterface"); hi != nil {
+		it := hi.Underlying().(*types.Interface)
+		for i := 0; i < it.NumMethods(); i++ {
+			userOps[it.Method(i).Name()] = true
+		}
+	}
 	for _, s := range append(append([]core.Site{}, det...), syn...) {
 		c := core.Common(s.In)
 		key := "detail argument in " + p.FnName(s.Fn)
 		ok, why := stored(c.Args[1], s)
+		// user operations update the stored detail object in place: a delayed notification of an earlier
+		// state that is still pending holds that very object and therefore shows the newer state too
+		if ok && s.Fn.Parent() == nil && userOps[s.Fn.Name()] {
+			if call, isCall := core.Canon(c.Args[1]).(*ssa.Call); !isCall || !core.CallsMethodNamed(call, apiPath, "ServiceDetails", "ConnectionStateDetail") {
+				ok, why = false, "a user operation replaces the stored detail object instead of updating it in place: a delayed notification of the previous state that is still pending keeps the old object and is delivered after this newer one"
+			}
+		}
 		if ok {
 			r.OK(R2, key, p.Pos(s.In.Pos()), why)
 		} else {
